@@ -233,6 +233,173 @@ func runReuse(c PostCase, a *run.Acc) {
 	a.Outcome(fmt.Sprintf("ok/reuse/len=%d", len(seq)))
 }
 
+// genDonate / runDonate: only the ITERATOR of list A is passed on as preallocation (to a
+// fresh list B of another term / field / segment / exclusion) while list A itself stays
+// in use. B's iterator must be right, A must still describe its own hits (Count, a fresh
+// iteration), and a bitmap the caller handed to ReplaceActual must not be written to.
+func genDonate(tier string, emit func(interface{})) {
+	n := len(reuseFamily())
+	for a := 0; a < n; a++ {
+		for b := 0; b < n; b++ {
+			emit(PostCase{Kind: "donate", N: a, P: b})
+		}
+	}
+}
+
+func runDonate(c PostCase, a *run.Acc) {
+	fam := reuseFamily()
+	la, lb := fam[c.N], fam[c.P]
+	env, err := newReuseEnv()
+	defer env.done()
+	if err != nil {
+		a.Violation("setup-error", err.Error())
+		return
+	}
+	a.NonTrivial(fmt.Sprintf("donate/%d/%d", c.N, c.P))
+	hitsFor := func(l reuseList) []ref.Hit {
+		es := map[uint32]bool{}
+		for _, d := range l.except {
+			es[d] = true
+		}
+		return hitsOf(env.exps[l.seg], l.field, l.term, es)
+	}
+	list := func(l reuseList) (segment.PostingsList, error) {
+		dict, err := env.segs[l.seg].Dictionary(l.field)
+		if err != nil {
+			return nil, err
+		}
+		return dict.PostingsList([]byte(l.term), bitmapOf32(l.except), nil)
+	}
+	ha, hb := hitsFor(la), hitsFor(lb)
+	for _, flags := range []int{7, 0, 1} {
+		for _, consumed := range []int{0, 1, -1} {
+			for _, replace := range []bool{false, true} {
+				fail := func(msg string) {
+					a.Violation("donated-iterator", fmt.Sprintf("iterator of seg%d(%q,%q,except %v) after %d Next calls (ReplaceActual first: %v) passed as preallocation to a fresh list seg%d(%q,%q,except %v), flags %d: %s",
+						la.seg, la.field, la.term, la.except, consumed, replace, lb.seg, lb.field, lb.term, lb.except, flags, msg))
+				}
+				pa, err := list(la)
+				if err != nil {
+					fail(err.Error())
+					return
+				}
+				ita := pa.Iterator(flags&1 != 0, flags&2 != 0, flags&4 != 0, nil)
+				wantA := ha
+				var given, givenCopy *roaring.Bitmap
+				if replace {
+					o := ita.(segment.OptimizablePostingsIterator)
+					if _, is1 := o.DocNum1Hit(); is1 || o.ActualBitmap() == nil || len(ha) < 2 {
+						continue
+					}
+					given = roaring.New()
+					given.Add(uint32(ha[len(ha)-1].Doc))
+					givenCopy = given.Clone()
+					o.ReplaceActual(given)
+					wantA = ha[len(ha)-1:]
+				}
+				for j := 0; consumed < 0 || j < consumed; j++ {
+					p, err := ita.Next()
+					if err != nil {
+						fail(err.Error())
+						return
+					}
+					if p == nil {
+						break
+					}
+					if j >= len(wantA) || p.Number() != wantA[j].Doc {
+						fail(fmt.Sprintf("before the hand-over, Next #%d returned doc %d, want %v", j, p.Number(), docsOf(wantA)))
+						return
+					}
+				}
+				pb, err := list(lb)
+				if err != nil {
+					fail(err.Error())
+					return
+				}
+				itb := pb.Iterator(flags&1 != 0, flags&2 != 0, flags&4 != 0, ita)
+				if msg := checkCreation(pb, itb, hb); msg != "" {
+					fail("new list: " + msg)
+					return
+				}
+				got, err := dumpHits(itb)
+				a.Eval(1)
+				if err != nil {
+					fail(err.Error())
+					return
+				}
+				if fmt.Sprint(docsOf(got)) != fmt.Sprint(docsOf(hb)) {
+					fail(fmt.Sprintf("new iterator returned docs %v, want %v", docsOf(got), docsOf(hb)))
+					return
+				}
+				for i := range got {
+					if msg := hitEqualRef(got[i], hb[i], flags&1 != 0, flags&2 != 0, flags&4 != 0); msg != "" {
+						fail(fmt.Sprintf("new iterator, hit %d: %s", i, msg))
+						return
+					}
+				}
+				// the old list is still the caller's object
+				if pa.Count() != uint64(len(ha)) {
+					fail(fmt.Sprintf("the OLD list now reports Count() = %d, want %d", pa.Count(), len(ha)))
+					return
+				}
+				again, err := dumpHits(pa.Iterator(true, true, true, nil))
+				if err != nil {
+					fail(err.Error())
+					return
+				}
+				if fmt.Sprint(docsOf(again)) != fmt.Sprint(docsOf(ha)) {
+					fail(fmt.Sprintf("a fresh iteration of the OLD list returns docs %v, want %v", docsOf(again), docsOf(ha)))
+					return
+				}
+				if given != nil && !given.Equals(givenCopy) {
+					fail(fmt.Sprintf("the bitmap handed to ReplaceActual was overwritten: now %v, was %v", given.ToArray(), givenCopy.ToArray()))
+					return
+				}
+			}
+		}
+	}
+	a.Outcome("ok/donate")
+}
+
+func dumpHits(it segment.PostingsIterator) ([]ref.Hit, error) {
+	var rv []ref.Hit
+	for {
+		p, err := it.Next()
+		if err != nil {
+			return nil, err
+		}
+		if p == nil {
+			return rv, nil
+		}
+		h := ref.Hit{Doc: p.Number(), Freq: p.Frequency(), Norm: p.Norm()}
+		for _, l := range p.Locations() {
+			var ap []uint64
+			if len(l.ArrayPositions()) > 0 {
+				ap = append(ap, l.ArrayPositions()...)
+			}
+			h.Locs = append(h.Locs, ref.Loc{Field: l.Field(), Pos: l.Pos(), Start: l.Start(), End: l.End(), AP: ap})
+		}
+		rv = append(rv, h)
+	}
+}
+
+// hitEqualRef compares only the requested details of two reference hits.
+func hitEqualRef(got, want ref.Hit, freq, norm, locs bool) string {
+	if got.Doc != want.Doc {
+		return fmt.Sprintf("doc %d, want %d", got.Doc, want.Doc)
+	}
+	if freq && got.Freq != want.Freq {
+		return fmt.Sprintf("doc %d: frequency %d, want %d", got.Doc, got.Freq, want.Freq)
+	}
+	if norm && want.Freq > 0 && got.Norm != want.Norm {
+		return fmt.Sprintf("doc %d: norm %v, want %v", got.Doc, got.Norm, want.Norm)
+	}
+	if locs && fmt.Sprint(got.Locs) != fmt.Sprint(want.Locs) {
+		return fmt.Sprintf("doc %d: locations %v, want %v", got.Doc, got.Locs, want.Locs)
+	}
+	return ""
+}
+
 func bitmapOf32(ds []uint32) *roaring.Bitmap {
 	if ds == nil {
 		return nil
